@@ -10,7 +10,8 @@ _symbols_pattern = re.compile(r":symbols:`(\w*)`")
 # Automatically find the necessary modules so that we don't need to write the logic by hand
 _symbols_by_module: dict[str, set[str]] = {}
 _unincluded: list[str] = []
-for _attr in set(dir(symbols)) - set(symbols.__all__):
+# NOTE: sorted, so that a name defined in several modules always resolves to the same one
+for _attr in sorted(set(dir(symbols)) - set(symbols.__all__)):
     _obj = getattr(symbols, _attr)
     _file = getattr(_obj, "__file__", "")
     if not _file:
